@@ -2,8 +2,16 @@
 #ifndef NV_C11_TYPES_H
 #define NV_C11_TYPES_H
 #include "nv_state.h"
-struct nv_tensor2d { int64_t rows, cols; uint64_t id; };       /* tensor2d_t: shape + ghost identity of the contents */
+struct nv_tensor2d { int64_t rows, cols; uint64_t id; uint64_t by; };   /* tensor2d_t: shape + ghost identity of the contents (+ of the index list they were selected by, 0 = none) */
 struct nv_indices { int64_t n; uint64_t id; };                  /* indices_t: size + ghost identity of the index list */
 struct nv_vec { uint64_t size; };                               /* rwlearners_t (std::vector): only the number of learners */
 struct nv_early_stopping { uint64_t m_round; double m_value; struct nv_tensor2d m_values; };
+/* ghost identities of tensor contents: every producer of new contents draws a fresh identity */
+uint64_t nv_id_counter;
+static uint64_t nv_fresh_id(void) { __CPROVER_assume(nv_id_counter < UINT64_MAX - 1); nv_id_counter = nv_id_counter + 1; return nv_id_counter; }
+/* tensor2d_t{rows, cols}: shape as given, contents not yet meaningful (fresh identity) */
+static struct nv_tensor2d nv_t2_make(int64_t rows, int64_t cols)
+{ struct nv_tensor2d t; t.rows = rows; t.cols = cols; t.id = nv_fresh_id(); t.by = 0; return t; }
+static uint64_t nv_vec_size(const struct nv_vec* v) { return v->size; }
+static int64_t nv_indices_size(const struct nv_indices* v) { return v->n; }
 #endif
